@@ -162,14 +162,21 @@ let rec sizes_for o n =
   | [] -> (N0, N0)
   | p :: r -> let (k, v) = p in if name_eqb n k then v else sizes_for r n
 
-(** val freeze_all : (name * tstate) list -> (name * tstate) list res **)
+(** val map_tabs :
+    site -> (tstate -> tstate option) -> (name * tstate) list ->
+    (name * tstate) list res **)
 
-let rec freeze_all = function
+let rec map_tabs s f = function
 | [] -> Val []
 | p :: r ->
   let (n, t) = p in
-  bind (of_opt SFrozenNotEmpty (freeze t)) (fun t' ->
-    bind (freeze_all r) (fun r' -> Val ((n, t') :: r')))
+  bind (of_opt s (f t)) (fun t' ->
+    bind (map_tabs s f r) (fun r' -> Val ((n, t') :: r')))
+
+(** val freeze_all : (name * tstate) list -> (name * tstate) list res **)
+
+let freeze_all =
+  map_tabs SFrozenNotEmpty freeze
 
 (** val lift_t : 'a1 tres -> 'a1 res **)
 
@@ -215,12 +222,8 @@ let rec flush_tables guard c o names l =
 
 (** val delete_orphans : (name * tstate) list -> (name * tstate) list res **)
 
-let rec delete_orphans = function
-| [] -> Val []
-| p :: r ->
-  let (n, t) = p in
-  bind (of_opt SDeleteMissing (delete_dead t)) (fun t' ->
-    bind (delete_orphans r) (fun r' -> Val ((n, t') :: r')))
+let delete_orphans =
+  map_tabs SDeleteMissing delete_dead
 
 (** val find_seg : coq_N -> (coq_N * segment) list -> bool **)
 
@@ -253,13 +256,13 @@ let flush guard c o s =
   let hi = s.next_wal in
   bind (freeze_all s.tabs) (fun l0 ->
     bind (flush_tables guard c o (map fst l0) l0) (fun l1 ->
-      let l2 = map (fun nt -> ((fst nt), (publish_meta (snd nt)))) l1 in
-      bind (delete_orphans l2) (fun l3 ->
-        bind
-          (of_opt SDeleteMissing
-            (delete_segments (N.to_nat (N.sub hi lo)) lo s.d_wal)) (fun w ->
-          Val { tabs = l3; next_wal = hi; earliest = hi; wal_size = N0;
-          d_cursor = (Some hi); d_wal = w; acked = s.acked }))))
+      bind (map_tabs SNoTable (fun t -> Some (publish_meta t)) l1) (fun l2 ->
+        bind (delete_orphans l2) (fun l3 ->
+          bind
+            (of_opt SDeleteMissing
+              (delete_segments (N.to_nat (N.sub hi lo)) lo s.d_wal))
+            (fun w -> Val { tabs = l3; next_wal = hi; earliest = hi;
+            wal_size = N0; d_cursor = (Some hi); d_wal = w; acked = s.acked })))))
 
 (** val insert_seg :
     (coq_N * segment) -> (coq_N * segment) list -> (coq_N * segment) list **)
